@@ -866,8 +866,12 @@ fn source_clauses(
         }
         let obliged = match f {
             Fault::Unreadable | Fault::NoSearch => {
-                // a directory the healed walk must enter: something beneath it matches there
-                !is_glob || hvisits.iter().any(|h| is_below(&h.path, &v.path) && matches(&h.path))
+                // a directory the healed walk must enter: something beneath it matches there — or
+                // the walk kept the directory itself (yielded it): a kept directory is not a
+                // discarded tree, its entries are due downstream (C13), so it has to be read
+                !is_glob
+                    || hvisits.iter().any(|h| is_below(&h.path, &v.path) && matches(&h.path))
+                    || uv.ys.iter().any(|y| y.wp.as_deref() == Some(v.path.as_str()))
             },
             _ => {
                 // a bad link: reported when its directory was demonstrably listed
@@ -877,7 +881,8 @@ fn source_clauses(
                 seen.extend(uv.ys.iter().filter_map(|y| sib(&y.wp)));
                 seen.extend(uv.es.iter().filter_map(|e| sib(&e.wp)));
                 seen.extend(uv.saws.iter().filter_map(|s| sib(&s.wp)));
-                !is_glob || seen.len() >= 2
+                // (or the walk kept — yielded — that directory, see above)
+                !is_glob || seen.len() >= 2 || uv.ys.iter().any(|y| y.wp.as_deref() == Some(dir))
             },
         };
         // ... and only if the faulty entry itself was reachable: for a glob walk its directory may
